@@ -111,6 +111,24 @@ def install(it):
         x = it.read_cstring(a[0]); y = it.read_cstring(a[1])
         return 0 if x == y else ((1 if x > y else -1) & 0xFFFFFFFF)
     reg('strcmp', strcmp)
+    def errno_location(it, a):
+        p = getattr(it, '_errno_ptr', None)
+        if p is None:
+            p = it.alloc(4, 'global', 'errno'); it.store(p, 4, 0); it._errno_ptr = p
+        return p
+    reg('__errno_location', errno_location)
+    def tolower(it, a):
+        c = a[0]
+        if type(c) is not int: raise Unsupported('tolower of a symbolic character')
+        c &= 0xFFFFFFFF
+        return c + 32 if 65 <= c <= 90 else c
+    reg('tolower', tolower)
+    def toupper(it, a):
+        c = a[0]
+        if type(c) is not int: raise Unsupported('toupper of a symbolic character')
+        c &= 0xFFFFFFFF
+        return c - 32 if 97 <= c <= 122 else c
+    reg('toupper', toupper)
 
     nop = lambda it, a: None
     reg(['llvm.lifetime.start', 'llvm.lifetime.end', 'llvm.dbg.value', 'llvm.dbg.declare', 'llvm.assume',
